@@ -48,9 +48,11 @@ def spec_mean(xx, grp, nd, out):
                 return "pos %d: empty group gives %s" % (i, o)
         else:
             exact = Fraction(sum(mem), len(mem))
-            tol = max(abs(exact), 1) * Fraction(1, 2 ** 22)
+            # the value is stored in float32: one unit in its last place around the exact mean (a float64 accumulation rounded once stays
+            # within half a unit; a float32 accumulation of a long or wide-ranged group does not)
+            tol = max(abs(exact), 1) * Fraction(1, 2 ** 23)
             if not np.isfinite(o) or abs(Fraction(o) - exact) > tol:
-                return "pos %d: group %d mean %s, exact %s" % (i, g, o, float(exact))
+                return "pos %d: group %d mean %s, exact %s (more than one float32 unit in the last place away)" % (i, g, o, float(exact))
     return None
 
 
